@@ -188,3 +188,11 @@ func VerifC08SetLoaderDB(cdb consensus.ChainDB) {
 		bsLoader.cdb = cdb
 	}
 }
+
+// VerifC08LoaderBest is the id of the best block the boot loader read from the chain DB.
+func VerifC08LoaderBest() string {
+	if bsLoader == nil || bsLoader.best == nil {
+		return ""
+	}
+	return bsLoader.best.ID()
+}
